@@ -45,6 +45,10 @@ func newVerifWSBackend() *verifWSBackend {
 	b := &verifWSBackend{newC: make(chan *verifWSConn, 256)}
 	up := websocket.Upgrader{ReadBufferSize: 4096, WriteBufferSize: 4096}
 	b.srv = httptest.NewServer(http.HandlerFunc(func(w http.ResponseWriter, r *http.Request) {
+		if r.URL.Path == "/reject-handshake" {
+			http.Error(w, "no websocket here", http.StatusForbidden)
+			return
+		}
 		c, err := up.Upgrade(w, r, nil)
 		if err != nil {
 			return
